@@ -9,8 +9,10 @@ import (
 
 func InitGenesis(ctx sdk.Context, k keeper.Keeper, state *types.GenesisState) {
 	var (
-		gaugeID       uint64
-		lendRewardsID uint64
+		gaugeID         uint64
+		lendRewardsID   uint64
+		lockerRewardsID uint64
+		vaultRewardsID  uint64
 	)
 
 	k.SetParams(ctx, state.Params)
@@ -28,10 +30,16 @@ func InitGenesis(ctx sdk.Context, k keeper.Keeper, state *types.GenesisState) {
 	}
 
 	for _, item := range state.LockerExternalRewards {
+		if item.Id > lockerRewardsID {
+			lockerRewardsID = item.Id
+		}
 		k.SetExternalRewardsLockers(ctx, item)
 	}
 
 	for _, item := range state.VaultExternalRewards {
+		if item.Id > vaultRewardsID {
+			vaultRewardsID = item.Id
+		}
 		k.SetExternalRewardVault(ctx, item)
 	}
 
@@ -63,6 +71,8 @@ func InitGenesis(ctx sdk.Context, k keeper.Keeper, state *types.GenesisState) {
 
 	k.SetGaugeID(ctx, gaugeID)
 	k.SetExternalRewardsLendID(ctx, lendRewardsID)
+	k.SetExternalRewardsLockersID(ctx, lockerRewardsID)
+	k.SetExternalRewardsVaultID(ctx, vaultRewardsID)
 }
 
 func ExportGenesis(ctx sdk.Context, k keeper.Keeper) *types.GenesisState {
